@@ -132,6 +132,37 @@ def parse_file(data, bof):
     return out, b""
 
 
+def code_tie(ctx, rep):
+    """The translator tie (see Props/C02code.v): regenerate Gen/UKVCode.v from MOLLI_REPO's ukvfile.py and re-check that every
+    translated method body equals its model function.  -> (status, ok, out, where); status 'refused' = the source left the
+    translator's grammar: nothing is decided by this tie on this run, the differential tie stands alone (recorded in the evidence)."""
+    import ukv_translate as T
+    path = os.path.join(vlib.COQ, "Gen", "UKVCode.v")
+    try:
+        txt = T.translate(vlib.REPO)
+    except T.Refuse as e:
+        rep.extra["translator_tie"] = {"status": "refused", "reason": str(e)[:300],
+                                       "consequence": "no theorem of Props/C02code.v was re-checked against this source; the model is tied to it by the differential correspondence only"}
+        rep.count("translator-tie:refused")
+        return "refused", True, "", None
+    except SyntaxError as e:
+        rep.extra["translator_tie"] = {"status": "refused", "reason": "ukvfile.py does not parse: " + str(e)[:200]}
+        return "refused", True, "", None
+    with vlib.CoqLock():
+        changed = vlib.write_if_changed(path, txt)
+    ok, out, where = vlib.build_props(ctx, rep, "C02code")
+    rep.extra["translator_tie"] = {"status": "checked" if ok else "broken", "generated_file_changed": changed,
+                                   "methods": ukv_methods()}
+    rep.count("translator-tie:" + ("checked" if ok else "broken"))
+    rep.trusted.append("harness/ukv_translate.py (syntactic Python->MiniPy translator) and the semantics coq/Model/MiniPy.v")
+    return ("checked" if ok else "broken"), ok, out, where
+
+
+def ukv_methods():
+    import ukv_translate as T
+    return list(T.METHODS)
+
+
 class track_streams:
     """While active, every binary file object opened through pathlib.Path.open (what UKVFile uses) is remembered, so
     that a process death can be played without running any of UKVFile's own code: the buffered bytes are handed to the
